@@ -120,6 +120,81 @@ class _BoolNF(ast.NodeTransformer):
         return n
 
 
+# ------------------------------------------------------------------------------------------------ N5-N7
+import os as _os
+_OPT = set(_os.environ.get("SA_NORMAL", "N5,N6,N7").split(","))
+
+
+def _ends_in_jump(stmts):
+    if not stmts:
+        return False
+    s = stmts[-1]
+    if isinstance(s, (ast.Return, ast.Raise, ast.Continue, ast.Break)):
+        return True
+    if isinstance(s, ast.If):
+        return bool(s.orelse) and _ends_in_jump(s.body) and _ends_in_jump(s.orelse)
+    return False
+
+
+def _same_target(a, b):
+    return ast.dump(a) == ast.dump(b)
+
+
+class _ShapeNF(ast.NodeTransformer):
+    """N5  else-after-jump:   if c: ..jump  else: B      ->  if c: ..jump ; B
+                              if c: A  else: ..jump      ->  if not c: ..jump ; A
+       N6  conditional value: if c: x = A  else: x = B   ->  x = A if c else B         (same plain target)
+       N7  nested guards:     if a: (only) if b: X       ->  if a and b: X             (no else on either)"""
+
+    def _block(self, stmts, chain=False):
+        out = []
+        for s in stmts:
+            if isinstance(s, ast.If):
+                s = self._if(s, chain)
+                if isinstance(s, list):
+                    out.extend(s)
+                    continue
+            out.append(s)
+        return out
+
+    def _if(self, n, chain=False):
+        if "N7" in _OPT:
+            while not n.orelse and len(n.body) == 1 and isinstance(n.body[0], ast.If) and not n.body[0].orelse:
+                inner = n.body[0]
+                vals = (n.test.values if isinstance(n.test, ast.BoolOp) and isinstance(n.test.op, ast.And) else [n.test]) + \
+                       (inner.test.values if isinstance(inner.test, ast.BoolOp) and isinstance(inner.test.op, ast.And) else [inner.test])
+                n = ast.copy_location(ast.If(test=ast.copy_location(ast.BoolOp(op=ast.And(), values=list(vals)), n.test),
+                                             body=inner.body, orelse=[]), n)
+        if "N6" in _OPT and not chain and n.orelse and len(n.body) == 1 and len(n.orelse) == 1 \
+                and isinstance(n.body[0], ast.Assign) and isinstance(n.orelse[0], ast.Assign) \
+                and len(n.body[0].targets) == 1 and len(n.orelse[0].targets) == 1 \
+                and isinstance(n.body[0].targets[0], (ast.Name, ast.Attribute)) \
+                and _same_target(n.body[0].targets[0], n.orelse[0].targets[0]):
+            val = ast.copy_location(ast.IfExp(test=n.test, body=n.body[0].value, orelse=n.orelse[0].value), n)
+            val = _BoolNF().visit_IfExp(val) if isinstance(val, ast.IfExp) else val
+            return ast.copy_location(ast.Assign(targets=n.body[0].targets, value=val), n)
+        if "N5" in _OPT and n.orelse and not chain and not (len(n.orelse) == 1 and isinstance(n.orelse[0], ast.If)):
+            bj, oj = _ends_in_jump(n.body), _ends_in_jump(n.orelse)
+            if bj:
+                rest = n.orelse
+                n = ast.copy_location(ast.If(test=n.test, body=n.body, orelse=[]), n)
+                return [n] + self._block(rest)
+            if oj:
+                rest = n.body
+                n = ast.copy_location(ast.If(test=_BoolNF().visit(_negate(n.test)), body=n.orelse, orelse=[]), n)
+                return [n] + self._block(rest)
+        return n
+
+    def generic_visit(self, node):
+        super().generic_visit(node)
+        for fld in ("body", "orelse", "finalbody"):
+            v = getattr(node, fld, None)
+            if isinstance(v, list) and v and isinstance(v[0], ast.stmt):
+                chain = fld == "orelse" and isinstance(node, ast.If) and len(v) == 1 and isinstance(v[0], ast.If)
+                setattr(node, fld, self._block(v, chain))
+        return node
+
+
 # ------------------------------------------------------------------------------------------------ N2
 _BAD_CALLS = ("locals", "vars", "exec", "eval", "globals")
 
@@ -306,19 +381,50 @@ def functions(tree):
     yield from rec(tree.body, "")
 
 
-def normalize(tree, relpath):
+def _nf(tree):
     tree = _BoolNF().visit(tree)
-    ref = reference().get("functions", {}).get(relpath)
-    renamed = {}
+    if _OPT - {""}:
+        tree = _ShapeNF().visit(tree)
+    return tree
+
+
+def normalize(tree, relpath):
+    tree = _nf(tree)
+    R = reference()
+    ref = R.get("functions", {}).get(relpath)
+    renamed, notes = {}, {}
     if ref:
+        from . import inline
+        known = R.get("_names")
+        if known is None:
+            known = set()
+            for m in R.get("functions", {}).values():
+                for q in m:
+                    known.add(q.rsplit(".", 1)[-1])
+            R["_names"] = known
+        st = inline.inline_new_helpers(tree, ref, known)
+        if st.get("inlined"):
+            tree = _nf(tree)
+            notes["inlined"] = st
         for qual, fn in functions(tree):
             r = ref.get(qual)
-            if r and r.get("locals"):
+            if r and r.get("locals") is not None:
                 m = align_function(fn, r["locals"])
                 if m:
                     renamed[qual] = m
+                try:
+                    sub = inline.substitute_new_temps(fn, r["locals"])
+                except RecursionError:
+                    sub = []
+                if sub:
+                    notes.setdefault("temps", {})[qual] = sub
+                    _nf(fn)
+                    m2 = align_function(fn, r["locals"])
+                    if m2:
+                        renamed.setdefault(qual, {}).update(m2)
     ast.fix_missing_locations(tree)
     tree._renamed = renamed
+    tree._normal_notes = notes
     return tree
 
 
@@ -333,7 +439,7 @@ def build_reference(root):
             full = os.path.join(dp, f)
             rel = os.path.relpath(full, root)
             try:
-                tree = _BoolNF().visit(ast.parse(open(full, encoding="utf8", errors="replace").read()))
+                tree = _nf(ast.parse(open(full, encoding="utf8", errors="replace").read()))
             except SyntaxError:
                 continue
             ent = {}
